@@ -5,6 +5,7 @@ import (
 	"crypto/sha1"
 	"encoding/hex"
 	"fmt"
+	"hash/crc32"
 	"math/rand"
 	"os"
 	"path/filepath"
@@ -23,7 +24,7 @@ func init() { register(c14{}) }
 
 func (c14) ID() string { return "C14" }
 func (c14) Rule() string {
-	return "history monitor on the real gts binary (built with hooks H1/H2, scratch HOME/XDG_CACHE_HOME/TMPDIR): for each of the 19 cached subcommands a base invocation a and neighbours a' that differ from a in exactly one thing (each boolean option toggled, each valued option changed, each positional changed, the content of a secondary input changed under the same path, the primary input changed, -F switched); histories over one cache directory: [a,a], [a,a',a], [a',a,a',a], [a -o f, a], [a, a -o f, a], with failing inputs [bad,bad], [bad,good,bad], and [a,b,a,b] where b is another subcommand given a's arguments and input (every ordered pair of subcommands), and [a,a,a -o f,a] on a 2.6 MB three-record FASTA stream for clear, reverse, complement, sort. Oracle: every invocation's (output bytes on stdout or in the -o file, exit status) equals the memoised result of the same command with --no-cache in a pristine environment. The H2 event log must show a real cache hit for every command (else inconclusive); the option table is cross-checked against `gts <cmd> --help`. non-trivial: a history whose neighbour references differ (the changed thing matters on that input) or that contains a real hit; distinct: (argv, input digests, history shape). Also: a cache directory that takes no new entry (gts-cache linked to /proc/self), and the entry of a multi-MiB output torn as by a killed writer (zeroed header, half of the stored blocks) before the next identical run. A three-record infix host file and its twin that differs in the last residue of the last record."
+	return "history monitor on the real gts binary (built with hooks H1/H2, scratch HOME/XDG_CACHE_HOME/TMPDIR): for each of the 19 cached subcommands a base invocation a and neighbours a' that differ from a in exactly one thing (each boolean option toggled, each valued option changed, each positional changed, the content of a secondary input changed under the same path, the primary input changed, -F switched); histories over one cache directory: [a,a], [a,a',a], [a',a,a',a], [a -o f, a], [a, a -o f, a], with failing inputs [bad,bad], [bad,good,bad], and [a,b,a,b] where b is another subcommand given a's arguments and input (every ordered pair of subcommands), and [a,a,a -o f,a] on a 2.6 MB three-record FASTA stream for clear, reverse, complement, sort. Oracle: every invocation's (output bytes on stdout or in the -o file, exit status) equals the memoised result of the same command with --no-cache in a pristine environment. The H2 event log must show a real cache hit for every command (else inconclusive); the option table is cross-checked against `gts <cmd> --help`. non-trivial: a history whose neighbour references differ (the changed thing matters on that input) or that contains a real hit; distinct: (argv, input digests, history shape). Also: a cache directory that takes no new entry (gts-cache linked to /proc/self), and the entry of a multi-MiB output torn as by a killed writer (zeroed header, half of the stored blocks) before the next identical run. A three-record infix host file and its twin that differs in the last residue of the last record. -F fastq / -F embl next to -F fasta / -F genbank; pairs of FASTA inputs with equal length and equal CRC-32 (IEEE and Castagnoli)."
 }
 func (c14) Assumptions() []string {
 	return []string{"the --no-cache run in a pristine environment is the reference (memoised per argv+input digests)", "stderr is not compared", "one gts process at a time per cache directory", "Go toolchain; hooks H1/H2 only observe"}
@@ -205,6 +206,21 @@ func c14Plans() []cmdPlan {
 	for _, name := range []string{"clear", "complement", "reverse"} {
 		b := mk(name)
 		plans = append(plans, cmdPlan{name, b, fmtN(b), []string{"format"}})
+	}
+	for _, name := range []string{"clear", "reverse"} {
+		for _, tw := range []string{"ieee", "castagnoli"} {
+			ba := stdin(mk(name), "crc-"+tw+"-a.fasta")
+			plans = append(plans, cmdPlan{name, ba, []neighbour{{"primary-input", "another input of the same length and the same CRC-32 (" + tw + ")", stdin(mk(name), "crc-"+tw+"-b.fasta")}}, nil})
+		}
+	}
+	// format names of one family (what the writer makes of them is its own
+	// business; the cache must keep them apart as long as the outputs differ).
+	for _, name := range []string{"clear", "sort"} {
+		bf, bg := with(mk(name), "-F", "fasta"), with(mk(name), "-F", "genbank")
+		plans = append(plans, cmdPlan{name, bf, []neighbour{{"format", "-F fastq instead of -F fasta", with(mk(name), "-F", "fastq")}, {"format", "-F embl instead of -F fasta", with(mk(name), "-F", "embl")}}, nil})
+		plans = append(plans, cmdPlan{name, bg, []neighbour{{"format", "-F embl instead of -F genbank", with(mk(name), "-F", "embl")}, {"format", "-F fastq instead of -F genbank", with(mk(name), "-F", "fastq")}}, nil})
+		bfa := stdin(with(mk(name), "-F", "genbank"), "phix.fasta")
+		plans = append(plans, cmdPlan{name, bfa, []neighbour{{"format", "-F embl instead of -F genbank, FASTA input", stdin(with(mk(name), "-F", "embl"), "phix.fasta")}}, nil})
 	}
 	{
 		// gts repair panics on the phiX174 table (known C12 finding), so its base
@@ -433,6 +449,30 @@ func (x *c14run) loadInputs() error {
 			}
 		}
 		x.inputs["hosts-multi.gb"], x.inputs["hosts-multi-tail.gb"] = hosts, twin
+	}
+	// two FASTA inputs that differ in eight letters of the record name and
+	// agree in length and in their CRC-32 (IEEE and, a second pair, Castagnoli):
+	// what a short checksum cannot tell apart, the cache must.
+	for _, tab := range []struct {
+		name string
+		t    *crc32.Table
+	}{{"ieee", crc32.IEEETable}, {"castagnoli", crc32.MakeTable(crc32.Castagnoli)}} {
+		seen := map[uint32]string{}
+		cr := rand.New(rand.NewSource(32))
+		for tries := 0; tries < 2000000; tries++ {
+			w := make([]byte, 8)
+			for i := range w {
+				w[i] = "abcdefghijklmnopqrstuvwxyzABCDEFGHIJKLMNOPQRSTUVWXYZ0123456789"[cr.Intn(62)]
+			}
+			sum := crc32.Checksum(w, tab.t)
+			if o, ok := seen[sum]; ok && o != string(w) {
+				body := "\nacgtacgtacgtacgtacgtacgtacgtacgtacgtacgt\n"
+				x.inputs["crc-"+tab.name+"-a.fasta"] = []byte(">" + o + body)
+				x.inputs["crc-"+tab.name+"-b.fasta"] = []byte(">" + string(w) + body)
+				break
+			}
+			seen[sum] = string(w)
+		}
 	}
 	// phiX with a second value for the /db_xref of its first gene (a multi-valued qualifier).
 	if i := bytes.Index(phix, []byte("/db_xref=\"GeneID")); i >= 0 {
